@@ -24,8 +24,8 @@ from .common import sample
 TIMEOUT_MS = {"quick": 60000, "thorough": 300000}
 
 CONTRACTS = ["string_cell_roundtrip", "string_cell_special_fill", "int_cell_roundtrip", "bool_cell_roundtrip", "float_cell_roundtrip", "complex_cell_roundtrip", "terse_schema_is_valid",
-             "schema_validation", "invalid_schema_refused", "unequal_columns_refused", "unparsable_cell_refused", "single_column_rows_through_reader", "rows_through_reader_comma", "rows_through_reader_tab", "rows_through_reader_semicolon", "rows_through_reader_space", "header_scalars_are_single_quoted"]
-HEAVY = {"schema_validation", "invalid_schema_refused", "unparsable_cell_refused", "terse_schema_is_valid"}
+             "schema_validation", "invalid_schema_refused", "unequal_columns_refused", "unparsable_cell_refused", "foreign_typed_cell_refused", "single_column_rows_through_reader", "rows_through_reader_comma", "rows_through_reader_tab", "rows_through_reader_semicolon", "rows_through_reader_space", "header_scalars_are_single_quoted"]
+HEAVY = {"schema_validation", "invalid_schema_refused", "unparsable_cell_refused", "terse_schema_is_valid", "foreign_typed_cell_refused"}
 
 
 def tasks(tier):
